@@ -26,6 +26,8 @@ pub mod runner {
 }
 
 thread_local! {
+    /// what the CLI's -q/-v flags select: the level filter of the (per-thread) capture logger
+    static LEVEL: std::cell::Cell<log::LevelFilter> = const { std::cell::Cell::new(log::LevelFilter::Trace) };
     static LOGS: RefCell<Vec<(log::Level, String)>> = RefCell::new(Vec::new());
     static PANIC_MSG: RefCell<Option<String>> = RefCell::new(None);
 }
@@ -33,11 +35,13 @@ thread_local! {
 struct CaptureLog;
 
 impl log::Log for CaptureLog {
-    fn enabled(&self, _: &log::Metadata) -> bool {
-        true
+    fn enabled(&self, m: &log::Metadata) -> bool {
+        m.level() <= LEVEL.with(|l| l.get())
     }
     fn log(&self, record: &log::Record) {
-        LOGS.with(|l| l.borrow_mut().push((record.level(), format!("{}", record.args()))));
+        if self.enabled(record.metadata()) {
+            LOGS.with(|l| l.borrow_mut().push((record.level(), format!("{}", record.args()))));
+        }
     }
     fn flush(&self) {}
 }
@@ -66,6 +70,17 @@ pub fn init() {
     });
 }
 
+/// 0 = default (info), 1 = -v (debug), 2 = -vv (trace); applies to the calling thread
+pub fn set_verbosity(v: u8) {
+    LEVEL.with(|l| {
+        l.set(match v {
+            0 => log::LevelFilter::Info,
+            1 => log::LevelFilter::Debug,
+            _ => log::LevelFilter::Trace,
+        })
+    });
+}
+
 pub fn take_logs() -> Vec<(log::Level, String)> {
     LOGS.with(|l| std::mem::take(&mut *l.borrow_mut()))
 }
@@ -89,6 +104,11 @@ pub fn panic_key(p: &str) -> String {
     // keep file name and line out of the key: lines shift with unrelated edits
     let (loc, msg) = p.split_once(": ").unwrap_or(("", &p));
     let file = loc.split(':').next().unwrap_or("");
+    // repository-relative path, wherever the checkout lives
+    let file = ["core/src/", "cli/src/"]
+        .iter()
+        .find_map(|m| file.find(m).map(|i| &file[i..]))
+        .unwrap_or(file);
     for c in msg.chars() {
         if c.is_ascii_digit() {
             if !prev_digit {
